@@ -417,7 +417,11 @@ func catchGeneratedDataset(p *prng) (metaPath string, cleanup func(), desc J) {
 	}
 	gid := 1
 	nAct := 0
-	for _, id := range ids {
+	for idx, id := range ids {
+		// the first unit is RICH: it offers all four action types with non-zero effects and removal efficiencies, so that
+		// the interactions between the actions of one unit (a wetland filtering what river bank, gully and hill slope
+		// deliver) are exercised in every generated data set
+		rich := idx == 0
 		t := subT[p.intn(len(subT))]
 		veg := vegs[p.intn(len(vegs))]
 		if p.chance(0.2) {
@@ -427,10 +431,16 @@ func catchGeneratedDataset(p *prng) (metaPath string, cleanup func(), desc J) {
 		if p.chance(0.3) {
 			hill = 0
 		}
+		if rich {
+			veg = []float64{0.05, 0.3, 0.5}[p.intn(3)]
+			if hill == 0 {
+				hill = jit(17435.3)
+			}
+		}
 		sub = append(sub, strings.Join([]string{strconv.Itoa(id), f(t[0]), f(jit(t[1])), f(jit(t[2])), f(jit(t[3])), f(jit(t[4])), f(jit(t[5])),
 			f(jit(t[6])), f(veg), f(jit(t[8])), f(jit(t[9])), f(hill)}, ","))
 		nGul := 0
-		if p.chance(0.5) {
+		if rich || p.chance(0.5) {
 			nGul = 1 + p.intn(3)
 		}
 		for g := 0; g < nGul; g++ {
@@ -445,27 +455,34 @@ func catchGeneratedDataset(p *prng) (metaPath string, cleanup func(), desc J) {
 			act = append(act, strings.Join(cells, ","))
 			nAct++
 		}
-		if nGul > 0 && p.chance(0.7) {
+		if nGul > 0 && (rich || p.chance(0.7)) {
 			pn := jit(1.76)
 			dn := jit(0.0072)
 			row("Gully", cost(0), cost(167834), pn, pn*(0.1+0.5*p.float()), 0, 0, 0, 0, dn, dn*(0.2+0.6*p.float()), 0, 0, 0)
 		}
-		if p.chance(0.7) {
+		if rich || p.chance(0.7) {
 			pn := jit(10.5)
 			er := jit(1267.84)
-			if hill == 0 || p.chance(0.3) {
+			if hill == 0 || (!rich && p.chance(0.3)) {
 				pn, er = 0, 0
 			}
 			dn := jit(5.2)
 			row("Hillslope", cost(96419), cost(4700000), pn, pn*(0.2+0.6*p.float()), er, er*(0.05+0.3*p.float()), 0, 0, dn, dn*(0.8+0.19*p.float()), 0, 0, 0)
 		}
-		if p.chance(0.75) {
+		if rich || p.chance(0.75) {
 			fs := 0.1 + 0.1*p.float()
 			dn := jit(2.0e-7)
-			row("Riparian", cost(5722), cost(724823), 0, 0, 0, 0, fs, fs*(0.8+0.6*p.float()), dn, dn*(0.4+0.4*p.float()), []float64{0, 0.5, 0.632175983, 1}[p.intn(4)], 0, 0)
+			ripEff := []float64{0, 0.5, 0.632175983, 1}[p.intn(4)]
+			if rich && ripEff == 0 {
+				ripEff = 0.632175983
+			}
+			row("Riparian", cost(5722), cost(724823), 0, 0, 0, 0, fs, fs*(0.8+0.6*p.float()), dn, dn*(0.4+0.4*p.float()), ripEff, 0, 0)
 		}
-		if p.chance(0.4) {
+		if rich || p.chance(0.4) {
 			eff := []float64{0, 0.5, 0.98, 0.99, 1}
+			if rich {
+				eff = []float64{0.5, 0.98, 0.25, 0.99, 0.75}
+			}
 			row("Wetland", cost(6331), cost(2451354), 0, 0, 0, 0, 0, 0, 0, 0, eff[p.intn(5)], eff[p.intn(5)], eff[p.intn(5)])
 		}
 	}
